@@ -94,7 +94,7 @@ func VerifHarness_C12_eof() {
 		nrec++
 	}
 	cut := verifSplitInt("cut", 0, len(wt.out))
-	rt := &verifConn{in: wt.out[:cut]}
+	rt := &verifConn{in: wt.out[:cut], eofWithData: verifSplitInt("eofWithLastBytes", 0, 1) == 1}
 	r := newEstablished(rt, kind, iv, false)
 	// complete records before the cut
 	complete, onBoundary := 0, cut == 0
